@@ -48,11 +48,78 @@ def run(ctx):
                                                   'driver_args': ['corr', 'metrics'], 'index': i, 'case': line[:2000],
                                                   'code_says': code, 'spec_says': model})
         raise common.Violation(f'/metrics reports {code[:300]} but the responses sent were {model[:300]} (history: {line[:300]})', replay)
+    hardened_proc(ctx)
     if facts_err:
         replay = common.write_replay(ctx, 'tie', {'kind': 'tie', 'tie': facts_err.tie, 'detail': facts_err.detail[:3000]})
         raise common.Violation('T-facts broken: ' + facts_err.detail[:300], replay, found_input=False)
     if ctx.thorough:
         common.leanchecker(ctx, ['Smtb.Properties.C20'])
+
+
+def hardened_proc(ctx):
+    """The real binary in a private mount namespace whose /proc shows processes only (what
+    `ProcSubset=pid` of a hardened service unit gives: /proc/stat, /proc/meminfo … are absent): the
+    metrics endpoint must still answer and report the request totals."""
+    import os, re, signal, socket, subprocess, time, urllib.request, urllib.error
+    probe = subprocess.run(['unshare', '-m', 'sh', '-c', 'mount -t proc -o subset=pid proc /proc && test ! -e /proc/stat'], capture_output=True)
+    if probe.returncode != 0:
+        ctx.assumptions.append('the restricted-/proc scenario was skipped: this sandbox does not allow a private mount namespace')
+        return
+    cli = common.build_cli(ctx)
+    keys = os.path.join(ctx.scratchdir(), 'keys-hardened')
+    p = common.run([cli, 'setup', '--mode', 'deletion', '--output', keys, '--tree-depth', '2', '--batch-size', '1'], timeout=600)
+    if p.returncode != 0:
+        raise common.TieBroken('cli-setup', (p.stderr or p.stdout)[-800:])
+
+    def free_port():
+        with socket.socket() as sk:
+            sk.bind(('127.0.0.1', 0))
+            return sk.getsockname()[1]
+    pa, ma = free_port(), free_port()
+    proc = subprocess.Popen(['unshare', '-m', 'sh', '-c', f'mount -t proc -o subset=pid proc /proc && exec {cli} start --mode deletion --keys-file {keys} '
+                             f'--prover-address 127.0.0.1:{pa} --metrics-address 127.0.0.1:{ma}'], stdout=subprocess.DEVNULL, stderr=subprocess.DEVNULL)
+    observed = 'server did not come up'
+    try:
+        def scrape():
+            try:
+                with urllib.request.urlopen(f'http://127.0.0.1:{ma}/metrics', timeout=10) as r:
+                    return r.status, r.read().decode()
+            except urllib.error.HTTPError as e:
+                return e.code, e.read().decode(errors='replace')
+            except Exception as e:
+                return None, str(e)
+        for _ in range(600):
+            st, body = scrape()
+            if st is not None:
+                break
+            time.sleep(0.05)
+        if st is not None:
+            req = urllib.request.Request(f'http://127.0.0.1:{pa}/prove', data=b'{not json', method='POST')
+            try:
+                urllib.request.urlopen(req, timeout=30)
+                sent = 200
+            except urllib.error.HTTPError as e:
+                sent = e.code
+            time.sleep(0.3)
+            st2, body2 = scrape()
+            m = re.search(r'http_requests_total\{code="400",endpoint_pattern="/prove",method="post"\} (\d+)', body2 or '')
+            if st == 200 and st2 == 200 and sent == 400 and m and m.group(1) == '1':
+                observed = 'ok'
+            else:
+                observed = f'scrape before: {st}; POST answered {sent}; scrape after: {st2} ({(body2 or "")[:160]!r}); counted 400s: {m.group(1) if m else None}'
+    finally:
+        proc.send_signal(signal.SIGINT)
+        try:
+            proc.wait(timeout=30)
+        except subprocess.TimeoutExpired:
+            proc.kill()
+    ctx.oblige('real binary with /proc restricted to processes (ProcSubset=pid): /metrics answers 200 and counts the 400 just sent', observed == 'ok', observed)
+    ctx.extra['extra_evaluations'] = ctx.extra.get('extra_evaluations', 0) + 1
+    ctx.extra['extra_distinct'] = ctx.extra.get('extra_distinct', 0) + 1
+    if observed != 'ok':
+        replay = common.write_replay(ctx, 'hardened', {'kind': 'hardened-proc', 'observed': observed,
+                                                      'recipe': 'unshare -m sh -c "mount -t proc -o subset=pid proc /proc && exec gnark-mbu start …"; POST garbage to /prove; GET /metrics'})
+        raise common.Violation(f'with /proc restricted to processes the metrics endpoint does not report the totals: {observed[:300]}', replay)
 
 
 def replay(ctx, data):
